@@ -12,6 +12,8 @@ import time
 import traceback
 
 VERIF = os.path.dirname(os.path.dirname(os.path.abspath(__file__)))
+OUT = os.environ.get("VERIF_OUT") or VERIF
+REPO = os.environ.get("VERIF_REPO") or "/repo"
 PY = os.path.join(VERIF, ".venv", "bin", "python")
 
 
@@ -81,7 +83,7 @@ def _run_case(args):
         known = [k for k in load_known(mod.PROPERTY) if k.get("family") in (None, case.family)]
         core.reset_atoms()
         ctx = Ctx(known=known, params=dict(case.params))
-        tracker = stubs.FuncTracker()
+        tracker = stubs.FuncTracker(REPO.rstrip("/") + "/")
         tracker.start()
         signal.signal(signal.SIGALRM, _alarm)
 
@@ -145,7 +147,7 @@ def replay_batch(items):
     if not items:
         return []
     p = subprocess.run([PY, "-B", "-m", "symx.replay"], input=json.dumps(items), capture_output=True, text=True,
-                       cwd=VERIF, env=dict(os.environ, PYTHONDONTWRITEBYTECODE="1"), timeout=1800)
+                       cwd=VERIF, env=dict(os.environ, PYTHONDONTWRITEBYTECODE="1", PYTHONPATH=REPO), timeout=1800)
     if p.returncode != 0:
         raise RuntimeError("replay interpreter failed: " + p.stderr[-2000:])
     return json.loads(p.stdout)
@@ -154,6 +156,10 @@ def replay_batch(items):
 # --------------------------------------------------------------------------- main entry
 def run_property(modname, tier, seed, jobs=None, only=None, verbose=False):
     t0 = time.time()
+    import spacepackets
+    if not os.path.realpath(spacepackets.__file__).startswith(os.path.realpath(REPO).rstrip("/") + "/"):
+        print("HARNESS-ERROR spacepackets imported from %s, not from %s" % (spacepackets.__file__, REPO))
+        return 2
     mod, cs = load_cases(modname, tier)
     prop = mod.PROPERTY
     if only:
@@ -217,7 +223,7 @@ def run_property(modname, tier, seed, jobs=None, only=None, verbose=False):
     except Exception as e:
         harness_errors.append("replay failed: %s" % e)
     confirmed, known_confirmed, validated = [], {}, 0
-    os.makedirs(os.path.join(VERIF, "replays"), exist_ok=True)
+    os.makedirs(os.path.join(OUT, "replays"), exist_ok=True)
     for (kind, r, v), out in zip(meta, outs):
         failed = [f[0] for f in out.get("failed", [])]
         if out.get("error"):
@@ -232,7 +238,7 @@ def run_property(modname, tier, seed, jobs=None, only=None, verbose=False):
                     continue
                 if any(c == r["case"] and l == v["label"] for c, l, _p, _v in confirmed):
                     continue
-                path = os.path.join(VERIF, "replays", "%s_%s_%s.json" % (
+                path = os.path.join(OUT, "replays", "%s_%s_%s.json" % (
                     prop, _safe(r["case"]), _safe(v["label"])))
                 with open(path, "w") as f:
                     json.dump(dict(property=prop, module=modname, case=r["case"], tier=tier, label=v["label"],
@@ -258,7 +264,7 @@ def run_property(modname, tier, seed, jobs=None, only=None, verbose=False):
                 validated += 1
         elif kind == "hang":
             if out.get("hung"):
-                path = os.path.join(VERIF, "replays", "%s_%s_hang.json" % (prop, _safe(r["case"])))
+                path = os.path.join(OUT, "replays", "%s_%s_hang.json" % (prop, _safe(r["case"])))
                 with open(path, "w") as f:
                     json.dump(dict(property=prop, module=modname, case=r["case"], tier=tier, label="never-loops",
                                    inputs=r["hang_inputs"]), f, indent=1)
@@ -318,6 +324,7 @@ def write_evidence(mod, prop, tier, seed, results, validated, v1, known_confirme
     shown = samples[:12]
     ev = dict(
         property_id=prop, tier=tier, seed=seed, level="model_checking",
+        source_tree=dict(path=REPO, head=_git("rev-parse", "--short", "HEAD"), dirty=bool(_git("status", "--porcelain"))),
         coverage=dict(
             states=tot("paths"), transitions=max(tot("forks"), 0) + tot("paths"),
             traces_validated_against_impl=validated,
@@ -350,9 +357,16 @@ def write_evidence(mod, prop, tier, seed, results, validated, v1, known_confirme
         ],
         wall_s=round(wall, 2), violations=len(confirmed),
     )
-    os.makedirs(os.path.join(VERIF, "evidence"), exist_ok=True)
-    with open(os.path.join(VERIF, "evidence", prop + ".json"), "w") as f:
+    os.makedirs(os.path.join(OUT, "evidence"), exist_ok=True)
+    with open(os.path.join(OUT, "evidence", prop + ".json"), "w") as f:
         json.dump(ev, f, indent=1, sort_keys=False)
+
+
+def _git(*a):
+    try:
+        return subprocess.run(["git", "-C", REPO] + list(a), capture_output=True, text=True, timeout=20).stdout.strip()
+    except Exception:
+        return "?"
 
 
 def _z3v():
